@@ -20,8 +20,8 @@ ASSUMPTIONS = [
     "numpy.linalg trusted only for condition numbers",
 ]
 
-N_RANDOM = {'quick': 2600, 'thorough': 40000}
-N_SMALL = {'quick': 1200, 'thorough': 16000}
+N_RANDOM = {'quick': 5200, 'thorough': 40000}
+N_SMALL = {'quick': 2400, 'thorough': 16000}
 
 
 def directed(rng):
